@@ -32,7 +32,7 @@ type wnMarker struct {
 	m       string
 	comment bool   // planted in a comment / processing instruction / CDATA section, not in text
 	inside  bool   // inside a disallowed skip-content element
-	path   string // categories from the root
+	path    string // categories from the root
 }
 
 type wnDoc struct {
@@ -44,7 +44,7 @@ type wnDoc struct {
 	tags    []string // intended tag sequence, e.g. "S:p", "E:p", "X:br"
 }
 
-var wnExclude = map[string]bool{"plaintext": true, "image": true, "html": true, "head": true, "body": true}
+var wnExclude = map[string]bool{"plaintext": true}
 
 func (e *Env) category(name string) string {
 	sp := e.Spec
@@ -157,7 +157,7 @@ func wnNames(e *Env) []string {
 			out = append(out, n, n)
 		}
 	}
-	out = append(out, "br", "img", "hr", "input", "frame", "object", "frameset", "noscript", "iframe", "title", "my-x", "x-foo", "a", "a", "b", "script", "style", "script", "style", "svg", "svg", "svg", "math", "math", "svg")
+	out = append(out, "br", "img", "hr", "input", "frame", "object", "frameset", "noscript", "iframe", "title", "my-x", "x-foo", "a", "a", "b", "script", "style", "script", "style", "svg", "svg", "svg", "math", "math", "svg", "body", "html", "head", "image")
 	return out
 }
 
@@ -517,6 +517,41 @@ func wnWorkload(ctx *core.Ctx, judge func(cs *core.Case, env *Env, d *wnDoc, out
 			judge(cs, env, &d, out, lc)
 			cs.Nontrivial(core.Hash("deep", fmt.Sprint(cs.Index, i)))
 		}
+		cs.Flush(lc)
+	})
+	// wide regions: a skipped element (and a dropped, a kept one) holding 17 000 - 70 000 small tokens,
+	// text before the end of the region and after it (token-count thresholds in the skip bookkeeping)
+	ctx.Run("wide-regions", ctx.N(16, 96), func(cs *core.Case) {
+		env := NewEnv(fixed[cs.Index%len(fixed)])
+		r := cs.R
+		lc := core.LocalCounts{}
+		outer := []string{"object", "frameset", "nostyle", "title", "b", "a", "my-x", "iframe"}[cs.Index/len(fixed)%8]
+		n := []int{5700, 17000, 23500}[r.Intn(3)]
+		mk := 0
+		next := func() *wnNode { mk++; return &wnNode{text: fmt.Sprintf("zqmk%06d", mk)} }
+		var kids []*wnNode
+		if rawTextNames[outer] {
+			kids = []*wnNode{{text: strings.Repeat("zq ", n) + "zqmk999999"}}
+		} else {
+			for i := 0; i < n; i++ {
+				switch i % 3 {
+				case 0:
+					kids = append(kids, &wnNode{name: "b", kids: []*wnNode{{text: "t"}}})
+				case 1:
+					kids = append(kids, &wnNode{name: "br"})
+				default:
+					kids = append(kids, &wnNode{text: "u "})
+				}
+			}
+			kids = append(kids, next())
+		}
+		forest := []*wnNode{next(), {name: outer, kids: kids}, next(), {name: "b", kids: []*wnNode{next()}}}
+		d := env.wnRender(r, forest, 0)
+		out := SanitizeVia(env.Pol, d.src, cs.Index)
+		cs.Eval()
+		lc["wide_regions"]++
+		judge(cs, env, &d, out, lc)
+		cs.Nontrivial(core.Hash("wide", fmt.Sprint(cs.Index)))
 		cs.Flush(lc)
 	})
 	// exhaustive small trees
